@@ -537,6 +537,7 @@ lyb_union_print(const struct ly_ctx *ctx, struct lysc_type_union *type_u, struct
         void *prefix_data, size_t *value_len)
 {
     void *ret = NULL;
+    struct lyd_value_union tmp;
     LY_ERR r;
     struct ly_err_item *err;
     uint64_t num = 0;
@@ -553,30 +554,34 @@ lyb_union_print(const struct ly_ctx *ctx, struct lysc_type_union *type_u, struct
         assert(subvalue->ctx_node);
         ctx = subvalue->ctx_node->module->ctx;
     }
-    subvalue->value.realtype->plugin->free(ctx, &subvalue->value);
-    r = union_find_type(ctx, type_u, subvalue, 0, 0, NULL, NULL, &type_idx, NULL, &err);
+
+    /* store the value again into a temporary subvalue, the printed value may be shared and must not be modified */
+    tmp = *subvalue;
+    memset(&tmp.value, 0, sizeof tmp.value);
+    r = union_find_type(ctx, type_u, &tmp, 0, 0, NULL, NULL, &type_idx, NULL, &err);
     ly_err_free(err);
     LY_CHECK_RET((r != LY_SUCCESS) && (r != LY_EINCOMPLETE), NULL);
 
     /* Print subvalue in LYB format. */
-    pval = (void *)subvalue->value.realtype->plugin->print(NULL, &subvalue->value, LY_VALUE_LYB, prefix_data, &dynamic,
-            &pval_len);
-    LY_CHECK_RET(!pval, NULL);
+    pval = (void *)tmp.value.realtype->plugin->print(NULL, &tmp.value, LY_VALUE_LYB, prefix_data, &dynamic, &pval_len);
+    LY_CHECK_GOTO(!pval, cleanup);
 
     /* Create LYB data. */
     *value_len = TYPE_IDX_SIZE + pval_len;
     ret = malloc(*value_len);
-    LY_CHECK_RET(!ret, NULL);
-
-    num = type_idx;
-    num = htole64(num);
-    memcpy(ret, &num, TYPE_IDX_SIZE);
-    memcpy((char *)ret + TYPE_IDX_SIZE, pval, pval_len);
+    if (ret) {
+        num = type_idx;
+        num = htole64(num);
+        memcpy(ret, &num, TYPE_IDX_SIZE);
+        memcpy((char *)ret + TYPE_IDX_SIZE, pval, pval_len);
+    }
 
     if (dynamic) {
         free(pval);
     }
 
+cleanup:
+    tmp.value.realtype->plugin->free(ctx, &tmp.value);
     return ret;
 }
 
